@@ -14,6 +14,16 @@ func (node *tagImportNode) Execute(ctx *ExecutionContext, writer TemplateWriter)
 	for name, macro := range node.macros {
 		func(name string, macro *tagMacroNode) {
 			ctx.Private[name] = func(args ...*Value) (*Value, error) {
+				// same recursion guard as for locally defined macros
+				ctx.macroDepth++
+				defer func() {
+					ctx.macroDepth--
+				}()
+
+				if ctx.macroDepth > maxMacroDepth {
+					return nil, ctx.Error(fmt.Sprintf("maximum recursive macro call depth reached (max is %v)", maxMacroDepth), node.position)
+				}
+
 				return macro.call(ctx, args...)
 			}
 		}(name, macro)
